@@ -203,6 +203,29 @@ def search(ctx, deep):
                 ctx.fail_input(f'{fam}.percent_point', {'theta': th, 'container': name, 'y': list(map(float, yv)), 'v': list(map(float, vv))},
                                {'got': got.tolist(), 'ndarray_answer': want.tolist()},
                                'the i-th output depends only on (y[i], v[i]) whatever the container', f'{fam}.percent_point:container-dependent[{name}]')
+    # the `ppf` alias (an observe-at entry point) is percent_point: same values bitwise, positional and by keyword,
+    # including roots close to 1 and close to 0
+    for fam in B.FAMS:
+        for th in (B.theta_grid(fam)[3] if fam != 'gumbel' else 2.0, B.theta_grid(fam)[-1] if fam != 'gumbel' else 3.0):
+            c = B.make(fam, th)
+            yv = np.array([0.9999, 0.999, 0.5, 0.02, 0.97, 0.3])
+            vv = np.array([0.5, 0.999, 0.5, 0.9, 0.98, 0.02])
+            checked += 1
+            try:
+                with np.errstate(all='ignore'):
+                    want = np.asarray(c.percent_point(yv, vv), dtype=float)
+                    got1 = np.asarray(c.ppf(yv, vv), dtype=float)
+                    got2 = np.asarray(c.ppf(y=yv, V=vv), dtype=float)
+            except Exception as e:  # noqa
+                found += 1
+                ctx.fail_input(f'{fam}.ppf', {'theta': th, 'y': yv.tolist(), 'v': vv.tolist()}, f'{vc.exc_kind(e)}: {e}'[:200],
+                               'ppf is a shortcut to percent_point', f'{fam}.ppf:alias-differs-from-percent_point')
+                continue
+            if not (np.array_equal(want, got1, equal_nan=True) and np.array_equal(want, got2, equal_nan=True)):
+                found += 1
+                ctx.fail_input(f'{fam}.ppf', {'theta': th, 'y': yv.tolist(), 'v': vv.tolist()},
+                               {'percent_point': want.tolist(), 'ppf': got1.tolist(), 'ppf_keywords': got2.tolist()},
+                               'ppf is a shortcut to percent_point (same values)', f'{fam}.ppf:alias-differs-from-percent_point')
     ctx.support = {'oracle_checks': checked, 'failures': found, 'deep': deep}
 
 
